@@ -26,7 +26,7 @@ SITES = []
 RULE = ("single fields: every shape HxW <= bound (5x5 thorough, 4x4 quick) x every window 1..H x 1..W x both paddings x k random binary "
         "fields (event density drawn from {0.2,0.5,0.8}, occasionally all-zero / all-one / identical pairs), value fields on the grid k/2 "
         "with NaN cells, thresholds on the grid and the four numpy comparison operators; multi-field arrays: 0-2 extra dims on fcst/obs "
-        "(random overlap, broadcast), random reduce/preserve spelling, both paddings; fss_2d_binary on bool and 0/1 float fields. A case is "
+        "(random overlap, broadcast, labels of shared extra dims stored in independently shuffled order), random reduce/preserve spelling, both paddings; fss_2d_binary on bool and 0/1 float fields. A case is "
         "distinct by (function, fields, threshold, operator, window, padding, request) and non-trivial when some field contains an event")
 ASSUMPTIONS = ["event counts are small integers: binary64 evaluates the component means and the final ratio to within 1e-9 of the exact rational"]
 TRUSTED = ["xr.apply_ufunc(vectorize=True) over the non-spatial dims is modelled as a loop over the broadcast (inner-joined) index space"]
@@ -60,7 +60,9 @@ def judge_scalar(ctx, what, desc, impl, sat, spec, pad, wh, ww):
     st, val = impl
     if core.is_err(spec) or st == "err":
         ok = (st == "err" and core.is_err(spec) and val == spec)
-        if not ok:
+        if not ok and st == "err" and not core.is_err(spec):
+            ctx.violation(what + " raises on a valid input", desc, spec, str(val)[:200])
+        elif not ok:
             ctx.tie_fail(what + ": error behaviour differs", desc, str(val)[:200], f"sat={sat} spec={spec}")
         return "err"
     if core.close(val, spec):
@@ -76,6 +78,9 @@ def judge_array(ctx, what, desc, impl, sat_t, spec_t, pad, wh, ww):
     ok_spec, why = core.compare_result(impl, spec_t)
     if ok_spec:
         return "agree" if impl[0] == "ok" else "err"
+    if impl[0] == "err" and not core.is_err(spec_t):
+        ctx.violation(what + " raises on a valid input", desc, str(spec_t)[:300], str(impl[1])[:200])
+        return "err"
     if impl[0] == "err" or core.is_err(spec_t):
         ctx.tie_fail(what + ": error behaviour differs: " + why, desc, str(impl[1])[:200], str(spec_t)[:200])
         return "err"
@@ -258,12 +263,19 @@ def gen_multi(ctx, binary=False):
         dims = list(dims) + ["x", "y"]
         rng.shuffle(dims)
         nan_p = 0.0 if binary else rng.choice([0.0, 0.0, 0.15])
+        # extra dims: labels stored in an independently shuffled order per array (fss_2d aligns them by label);
+        # spatial dims: ascending labels (window adjacency is positional)
         if binary:
-            return gens.rand_da(rng, sizes, dims=dims, shuffle=False, values=vals)
-        return gens.rand_da(rng, sizes, dims=dims, shuffle=False, den=2, bound=2, nan_p=nan_p)
+            da = gens.rand_da(rng, sizes, dims=dims, shuffle=True, values=vals)
+        else:
+            da = gens.rand_da(rng, sizes, dims=dims, shuffle=True, den=2, bound=2, nan_p=nan_p)
+        return da.sortby("x").sortby("y")
     fcst, obs = mk(fd), mk(od)
     if rng.random() < 0.1 and set(fcst.dims) == set(obs.dims):
         obs = fcst.transpose(*obs.dims).copy()
+        for d in obs.dims:
+            if d not in ("x", "y") and obs.sizes[d] > 1:
+                obs = obs.isel({d: list(range(obs.sizes[d]))[::-1]})
     wh, ww = rng.randint(1, H), rng.randint(1, W)
     pad = rng.random() < 0.5
     alld = sorted(set(fcst.dims) | set(obs.dims))
@@ -381,13 +393,14 @@ def run(ctx):
     import scores.spatial  # noqa: F401
     thorough = ctx.tier == "thorough"
     known_reproduction(ctx, S)
-    done_tiny = tiny_all_fields(ctx, S, 4 if thorough else 3)
-    done = exhaustive_single(ctx, S, 5 if thorough else 4, ctx.n(2, 12))
+    cells = 5 if thorough else 3
+    done_tiny = tiny_all_fields(ctx, S, cells)
+    done = exhaustive_single(ctx, S, 5 if thorough else 4, ctx.n(3, 30))
     ctx.exhaustive = bool(done and done_tiny)
-    ctx.note("geometry space (shape x window x padding) enumerated completely up to %s; binary fields enumerated completely up to %d cells, "
-             "sampled above" % ("5x5" if thorough else "4x4", 4 if thorough else 3))
-    thresholds_and_nan(ctx, S, ctx.n(150, 3000))
-    malformed_single(ctx, S, ctx.n(30, 300))
-    multi_cases(ctx, S, ctx.n(150, 4000))
-    binary_cases(ctx, S, ctx.n(60, 1500))
-    aggregation_cases(ctx, S, ctx.n(25, 500))
+    ctx.note("geometry space (shape x window x padding) enumerated completely up to %s; binary field pairs enumerated completely up to %d cells, "
+             "sampled above" % ("5x5" if thorough else "4x4", cells))
+    thresholds_and_nan(ctx, S, ctx.n(400, 8000))
+    malformed_single(ctx, S, ctx.n(40, 400))
+    multi_cases(ctx, S, ctx.n(400, 10000))
+    binary_cases(ctx, S, ctx.n(150, 3000))
+    aggregation_cases(ctx, S, ctx.n(60, 1000))
